@@ -1174,8 +1174,8 @@ func isFieldStringable(tpe ast.Expr) bool {
 	if ident, ok := tpe.(*ast.Ident); ok {
 		switch ident.Name {
 		case "int", "int8", "int16", "int32", "int64",
-			"uint", "uint8", "uint16", "uint32", "uint64",
-			"float64", "string", "bool":
+			"uint", "uint8", "uint16", "uint32", "uint64", "uintptr",
+			"float32", "float64", "string", "bool":
 			return true
 		}
 	} else if starExpr, ok := tpe.(*ast.StarExpr); ok {
